@@ -1,4 +1,5 @@
 import Ndt.Model.Guards
+import Ndt.Props.C10
 import Ndt.Model.Fornberg
 import Ndt.Model.FdDerivative
 import Mathlib.Tactic.SplitIfs
